@@ -1135,3 +1135,15 @@ COMMON_MODELS = [
     (r"^<(u\d+|usize) as From<(u\d+|usize)>>::from$", m_int_from),
     (r"^(std|core)::slice::<impl \[.*\]>::sort(_unstable)?_by_key::<", m_sort_by_key_generic),
 ]
+
+
+def _m_slice_iter(ex, env, b, a, p, d):
+    v = a[0]
+    while isinstance(v, Ref):
+        v = env[v.target[1]] if isinstance(v.target, tuple) else v.target
+    if isinstance(v, Obj) and hasattr(v, "items"):
+        return [(SliceIt([Ref(x) if isinstance(x, (BV, B)) else x for x in v.items]), [])]
+    raise MirError("symex: slice::iter of %r" % (v,))
+
+
+ITER_MODELS = [(r"^core::slice::<impl \[.*\]>::iter$", _m_slice_iter)] + ITER_MODELS
